@@ -162,11 +162,29 @@ class ExprMixin:
         self.note_unknown(node, f'unresolved name {name}')
         return UnkV(f'name {name}')
 
+    def _pure_const(self, v, depth=0):
+        """a display of constants only (numbers, text, nested tuples / lists / closed dictionaries of such)"""
+        if isinstance(v, ConstV) or isinstance(v, SeqV) and v.is_lit():
+            return True
+        if isinstance(v, IntV):
+            return v.lin.is_const()
+        if depth < 4 and isinstance(v, (TupleV, ListV)) and getattr(v, 'items', None) is not None:
+            return all(self._pure_const(x, depth + 1) for x in v.items)
+        if depth < 4 and isinstance(v, DictV) and not v.open and not v.sym_stores and v.default is None and getattr(v, 'comp', None) is None:
+            return all(self._pure_const(x, depth + 1) for x in v.items.values())
+        return False
+
     def ex_Tuple(self, node):
-        return TupleV([self.eval(e) for e in node.elts])
+        t = TupleV([self.eval(e) for e in node.elts])
+        if 4 < len(t.items) <= 40 and all(self._pure_const(x) for x in t.items):
+            t.exact_ok = True        # a table written out in the source: a loop over it runs entry by entry
+        return t
 
     def ex_List(self, node):
-        return ListV(items=[self.eval(e) for e in node.elts])
+        t = ListV(items=[self.eval(e) for e in node.elts])
+        if 4 < len(t.items) <= 40 and all(self._pure_const(x) for x in t.items):
+            t.exact_ok = True
+        return t
 
     def ex_Set(self, node):
         from .calls import make_set
@@ -762,6 +780,14 @@ class ExprMixin:
                 return TupleV(list(t.items) * max(c.c, 0))      # (2, 1) * 10
         if isinstance(op, ast.Mod) and isinstance(a, SeqV):
             return self._percent_format(a, b, node)
+        if isinstance(op, ast.BitOr) and isinstance(a, (DictV, PyLit)) and isinstance(b, (DictV, PyLit)):
+            # a | b on dictionaries (3.9): a new dictionary, a's entries then b's - a copy updated with b
+            from . import ext as _ext2
+            merged = _ext2._d_copy(self, a, [], {}, node)
+            if isinstance(b, PyLit):
+                b = _ext2._d_copy(self, b, [], {}, node)
+            _ext2._d_update(self, merged, [b], {}, node)
+            return merged
         if isinstance(a, (UnkV,)) or isinstance(b, (UnkV,)):
             return UnkV('binop on unknown')
         if isinstance(a, SymV) or isinstance(b, SymV):
